@@ -45,10 +45,17 @@ structure EvSpec where
   kids : Nat := 0             -- object elements of the split field
   skip : List Nat := []       -- chain positions whose match condition this event does not satisfy
   kidSkip : List Nat := []    -- the same for its children (they carry none of the matched fields)
+  cs   : List Nat := []       -- the collapse-only actions (by the position they read) that collapse this event
 deriving Repr, DecidableEq
 
-inductive Act | plain (i : Nat) | holder (f : Nat) | spawner
+inductive Act | plain (i : Nat) | holder (f : Nat) | spawner | collapser (i : Nat)
 deriving Repr, DecidableEq
+
+/-- the chain has no collapse-only action (an action that answers ActionCollapse without holding an
+    event, like the k8s multi-line or parse_es actions): the discipline theorems are proved for chains
+    of plain, join-like and split-like actions; the executable model covers collapse-only actions too -/
+class NoCol (acts : List Act) : Prop where
+  out : ∀ (j i : Nat), acts[j]? ≠ some (Act.collapser i)
 
 /-- an event as doActions sees it -/
 inductive Ev
@@ -133,6 +140,15 @@ def doActs : Nat → List Act → Nat → Ev → PS → PS × Res
       | .pass => doActs fuel acts (idx+1) ev (resetBusy ps idx)
       | .brk => (resetBusy ps idx, .passed)
       | .discard => (fin (resetBusy ps idx) ev true, .stopped idx)
+    | .collapser i =>
+      -- ActionCollapse: the event is dropped here and the action wants the next one of the stream;
+      -- anything else it answers (pass, or discard for the time-out event) resets the busy flag
+      match ev with
+      | .reg e =>
+        if e.cs.contains i then (fin (markBusy ps idx) ev true, .stopped idx)
+        else doActs fuel acts (idx+1) ev (resetBusy ps idx)
+      | .tmo => (resetBusy ps idx, .stopped idx)
+      | .child _ => doActs fuel acts (idx+1) ev (resetBusy ps idx)
     | .spawner =>
       match ev with
       | .reg e =>
